@@ -1,5 +1,6 @@
 /-
-  Line-protocol handlers for C09.  `handle` receives the tokens after the property id.
+  Line-protocol handlers for C09: none needed beyond the shared ones (the check observes object
+  identity and caches on the implementation; see harness/props/c09.py).
 -/
 import GEVerif.Model.Sexp
 
